@@ -31,6 +31,7 @@ def run(chk):
     a64common.rule_sibling_checks(chk, A)
     a64common.rule_shift_lossless(chk, A)
     a64common.rule_reg_type_seen(chk, A)
+    a64common.rule_mem_base_label(chk, A)
     from lib import a64vec
     a64vec.run(chk, A)
     a64vec.run_signature_rows(chk, A)
